@@ -109,6 +109,7 @@ theorem escClass_exc (it : Item) (raw : Cls) (hr : isException raw = true) :
       · split
         · split
           · rfl
+          · rfl
           · exact excCls_exc raw hr _
         · rfl
 
